@@ -34,10 +34,17 @@ DropProgs == {"reset", "closestream", "setbody", "hdrcl"}
 \* continues with a fresh ctx: the unread body is still this connection's problem)
 ExpectModes == {"noHandler", "expAccept", "expReject", "contAccept", "contReject"}
 
+\* method / protocol version / Server.GetOnly: the design treats every request that carries a framed
+\* body alike (GET and HEAD bodies are read like POST bodies; an HTTP/1.0 keep-alive request with
+\* Expect is continued like an HTTP/1.1 one); GetOnly refuses other methods before anything else.
+Methods == {"POST", "GET", "HEAD"}
+Protos == {"1.1", "1.0"}
 Scenarios ==
-  { [stream |-> st, framing |-> fr, size |-> sz, expect |-> ex, mode |-> md, prog |-> pg, bodyNow |-> bn] :
+  { [stream |-> st, framing |-> fr, size |-> sz, expect |-> ex, mode |-> md, prog |-> pg, bodyNow |-> bn,
+     method |-> me, proto |-> pr, getOnly |-> go] :
       st \in BOOLEAN, fr \in {"fixed", "chunked"}, sz \in Sizes, ex \in BOOLEAN,
-      md \in ExpectModes, pg \in Progs, bn \in BOOLEAN }
+      md \in ExpectModes, pg \in Progs, bn \in BOOLEAN,
+      me \in Methods, pr \in Protos, go \in BOOLEAN }
 
 \* prune combinations that cannot be told apart: expect-handler modes only matter with Expect,
 \* bodyNow (client sends the body without waiting for 100 Continue) only with Expect;
@@ -50,6 +57,12 @@ Relevant(s) ==
   /\ (s.size = 80 => (s.stream /\ ~s.expect /\ s.prog \in {"none", "one", "all", "timeout"} \cup DropProgs))
   /\ (s.prog = "timeout" => (s.stream /\ ~s.expect /\ s.size > 0))
   /\ (s.prog \in DropProgs \cup {"pasteof"} => (s.stream /\ ~s.expect /\ s.size > 0))
+  \* the added dimensions are explored on a reduced menu (small sizes, plain programs)
+  /\ (s.proto = "1.0" => (s.framing = "fixed" /\ s.method = "POST" /\ ~s.getOnly
+                          /\ s.size \in {1, 3} /\ s.prog \in {"none", "all", "postbody"}))
+  /\ (s.method # "POST" => (s.proto = "1.1" /\ ~s.expect /\ s.size \in {1, 3}
+                            /\ s.prog \in {"none", "all", "postbody"}))
+  /\ (s.getOnly /\ s.method = "POST" => (~s.expect /\ s.size = 1 /\ s.prog \in {"none", "postbody"}))
 
 VARIABLES
   sc,        \* the scenario
@@ -71,9 +84,17 @@ Init ==
 
 \* head of r1 parsed
 ReadHead ==
-  /\ phase = "head"
+  /\ phase = "head" /\ ~(sc.getOnly /\ sc.method = "POST")
   /\ phase' = IF sc.expect THEN "expect" ELSE "body"
   /\ UNCHANGED <<sc, pos, onWire, sent100, dispatched, resps, closed, misparse>>
+
+\* Server.GetOnly: any other method is refused before the body is looked at; the body may be on
+\* the wire, so the connection is closed
+RejectGetOnly ==
+  /\ phase = "head" /\ sc.getOnly /\ sc.method = "POST"
+  /\ resps' = Append(resps, 400)
+  /\ closed' = TRUE /\ phase' = "closed"
+  /\ UNCHANGED <<sc, pos, onWire, sent100, dispatched, misparse>>
 
 \* Expect: 100-continue.  With neither handler the server continues; a handler may reject.
 \* A rejection answers with a final status without reading the body: the client may or may
@@ -163,7 +184,7 @@ NextRequest ==
   /\ phase' = "done"
   /\ UNCHANGED <<sc, pos, onWire, sent100, closed, misparse>>
 
-Next == ReadHead \/ ExpectAccept \/ ExpectReject \/ RejectClose \/ ReadBodyBuffered \/ TooLarge
+Next == ReadHead \/ RejectGetOnly \/ ExpectAccept \/ ExpectReject \/ RejectClose \/ ReadBodyBuffered \/ TooLarge
         \/ ReadBodyPrefetch \/ Handler \/ Respond \/ DrainRest \/ CloseConn \/ NextRequest
 
 Spec == Init /\ [][Next]_vars
